@@ -166,8 +166,27 @@ void Runner::op_start(Thread *t, int idx, const Op &op, OpRes &res) {
     // (reproc++ objects live on the C++ heap, which the simulated fork does not copy: destroy only through the C binding)
     if ((acts & 1) && plan.w.binding == 0) {
       probe(P_destroy_in_child);
+      // the child opens descriptors of its own before destroying the handle: destroy must leave them alone
+      int mine[3] = { -1, -1, -1 };
+      int mine_ofd[3] = { -1, -1, -1 };
+      for (int q = 0; q < 3; q++) {
+        int fd = k->fd_alloc(t->child, 0);
+        if (fd < 0) break;
+        OFD *o = k->ofd_new(OFD::NUL);
+        o->acc = O_RDWR;
+        int sv = t->api_depth; t->api_depth = 0;
+        k->fd_install(t->child, fd, o, false, OWN_USER);
+        t->api_depth = sv;
+        mine[q] = fd; mine_ofd[q] = o->id;
+      }
       void *p = api->destroy(hp);
       if (p) viol("C15", "destroy-returned-non-null", "state=in-child", "reproc_destroy in the forked child did not return NULL", idx);
+      for (int q = 0; q < 3; q++) {
+        if (mine[q] < 0) continue;
+        FdEnt *e = k->fdent(t->child, mine[q]);
+        if (!e || e->ofd->id != mine_ofd[q])
+          viol("C15", "destroy-in-child-closed-foreign-descriptor", "", fmt("descriptor %d opened by the forked child itself was closed by reproc_destroy", mine[q]), idx);
+      }
     }
     child_phase_end_forkmode();  // never returns
   }
@@ -338,6 +357,14 @@ void Runner::op_start(Thread *t, int idx, const Op &op, OpRes &res) {
       for (int i = 0; i < 3; i++) if (img->fds.count(i) && img->fds[i].pipe_id == kv.second.pipe_id) is_stream = true;
       if (!is_stream && h->pipe_id[3] < 0) h->pipe_id[3] = kv.second.pipe_id;
     }
+  }
+  if (s.input_size >= 0 && h->pipe_id[0] >= 0) {
+    Pipe *ip = pipe_by_id(h->pipe_id[0]);
+    if (ip && ip->total_w != (uint64_t) s.input_size)
+      viol("C17", "input-not-delivered-completely", fmt("size-vs-capacity=%s", (uint64_t) s.input_size > k->w.pipe_cap ? "above" : "within"),
+           fmt("start succeeded with %lld bytes of start-up input but only %llu reached the child's stdin pipe", (long long) s.input_size, (unsigned long long) ip->total_w), idx);
+    if (ip && ip->writers > 0)
+      viol("C02", "no-eof-after-input", "", "start-up input was supplied but the child's stdin still has a writer after start", idx);
   }
   long long pidv = shim_norm(api->pid(hp));
   if (pidv != child->pid) viol("C04", "pid-mismatch", "", fmt("reproc_pid returned %lld, the child has pid %d", pidv, child->pid), idx);
